@@ -204,7 +204,7 @@ func main() {
 		gen.Pool()
 		var swg sync.WaitGroup
 		swg.Add(1)
-		go func() { defer swg.Done(); twoShims(r); oversizeForward(r); slowUpstream(r); stalledPeer(r) }()
+		go func() { defer swg.Done(); twoShims(r); oversizeForward(r); handedOutSigners(r); slowUpstream(r); stalledPeer(r) }()
 		defer swg.Wait()
 		rounds := r.Pick(300, 6000)
 		overlap := map[string]int{}
